@@ -1,1 +1,337 @@
-/-! C18 — property theorems (stub; no obligations yet) -/
+import Ypv.Model.MultiDoc
+/-!
+# C18 — multi-document merges combine documents as the selected mode defines
+
+All theorems are about `Ypv.MultiDoc` (the model of `merge_condense_all`, `merge_across`,
+`merge_matrix`, `merge_docs` in `yamlpath/commands/yaml_merge.py`) for an **arbitrary** pairwise
+merge `m`, an arbitrary classification `cls` of its failures, and streams of arbitrary length.
+-/
+namespace Ypv.C18
+open Ypv Ypv.MultiDoc
+
+variable {ε : Type} (m : Node → Node → Except ε Node) (cls : ε → Cls)
+
+/-- The left fold of the pairwise merge over a list of documents, failing at the first failure. -/
+def foldMerge (p : Node) : List Node → Except ε Node
+  | [] => .ok p
+  | d :: ds => match m p d with
+    | .ok q => foldMerge q ds
+    | .error e => .error e
+
+theorem foldMerge_append (p : Node) (xs ys : List Node) :
+    foldMerge m p (xs ++ ys) = (match foldMerge m p xs with
+      | .ok q => foldMerge m q ys
+      | .error e => .error e) := by
+  induction xs generalizing p with
+  | nil => simp [foldMerge]
+  | cons x xs ih =>
+    simp only [List.cons_append, foldMerge]
+    cases m p x with
+    | ok q => simpa using ih q
+    | error e => rfl
+
+theorem condenseLoop_fold (base : Nat) (ds : List Node) (p d : Node) (st : Nat)
+    (h : foldMerge m p ds = .ok d) : condenseLoop m cls base ds (p, st) = .ok (d, st) := by
+  induction ds generalizing p with
+  | nil => simp only [foldMerge] at h; cases h; rfl
+  | cons x xs ih =>
+    simp only [foldMerge] at h
+    unfold condenseLoop
+    cases hm : m p x with
+    | ok q => rw [hm] at h; simpa using ih q h
+    | error e => rw [hm] at h; cases h
+
+/-- **condense_is_fold.**  CONDENSE_ALL yields exactly one document: when every pairwise merge
+is defined, it is the left fold of every later document of the left-hand stream and then every
+document of the right-hand stream, in order, into the first document — and the state is 0. -/
+theorem condense_is_fold (l0 : Node) (ls rs : List Node) (d : Node)
+    (h : foldMerge m l0 (ls ++ rs) = .ok d) :
+    condenseAll m cls (l0 :: ls) rs = some (.ok ⟨[d], 0⟩) := by
+  rw [foldMerge_append] at h
+  cases h1 : foldMerge m l0 ls with
+  | error e => rw [h1] at h; cases h
+  | ok q =>
+    rw [h1] at h
+    simp only [condenseAll, condenseLoop_fold m cls 10 ls l0 q 0 h1,
+      condenseLoop_fold m cls 12 rs q d 0 h]
+
+/-- The loop state only ever is the initial one or one of the two codes of its phase. -/
+theorem condenseLoop_state (base : Nat) (ds : List Node) (p : Node) (st : Nat) (q : Node) (st' : Nat)
+    (h : condenseLoop m cls base ds (p, st) = .ok (q, st')) :
+    st' = st ∨ st' = base + 1 ∨ st' = base + 2 := by
+  induction ds generalizing p st with
+  | nil => simp only [condenseLoop] at h; cases h; exact .inl rfl
+  | cons x xs ih =>
+    unfold condenseLoop at h
+    cases hm : m p x with
+    | ok p' => rw [hm] at h; exact ih p' st h
+    | error e =>
+      rw [hm] at h
+      simp only [code] at h
+      cases hc : cls e with
+      | merge => rw [hc] at h; rcases ih p _ h with h' | h' | h' <;> simp [h']
+      | ypath => rw [hc] at h; rcases ih p _ h with h' | h' | h' <;> simp [h']
+      | other => rw [hc] at h; cases h
+
+/-- CONDENSE_ALL always leaves exactly one document, whatever fails. -/
+theorem condense_count (lhs rs : List Node) (o : Out)
+    (h : condenseAll m cls lhs rs = some (.ok o)) : o.docs.length = 1 := by
+  cases lhs with
+  | nil => simp [condenseAll] at h
+  | cons l0 ls =>
+    simp only [condenseAll, Option.some.injEq] at h
+    split at h
+    · cases h
+    · split at h
+      · cases h
+      · cases h; rfl
+
+/-- A failure is reported for a left-hand position only if that pairwise merge fails. -/
+theorem across_is_zip (ls rs : List Node) (o : Out) (h : across m cls ls rs = .ok o)
+    (h0 : o.state = 0) :
+    o.docs.length = max ls.length rs.length ∧
+    (∀ (i : Nat) l r, ls[i]? = some l → rs[i]? = some r → ∃ d, m l r = .ok d ∧ o.docs[i]? = some d) ∧
+    (∀ i : Nat, rs.length ≤ i → o.docs[i]? = ls[i]?) ∧
+    (∀ i : Nat, ls.length ≤ i → o.docs[i]? = rs[i]?) := by
+  induction ls generalizing rs o with
+  | nil =>
+    cases rs with
+    | nil => simp only [across] at h; cases h; simp
+    | cons r rs => simp only [across] at h; cases h; simp
+  | cons l ls ih =>
+    cases rs with
+    | nil => simp only [across] at h; cases h; simp
+    | cons r rs =>
+      simp only [across] at h
+      cases hm : m l r with
+      | error e =>
+        rw [hm] at h
+        simp only [code] at h
+        cases hc : cls e <;> rw [hc] at h <;> simp at h
+        all_goals (cases h; simp at h0)
+      | ok d =>
+        rw [hm] at h
+        cases hr : across m cls ls rs with
+        | error e => rw [hr] at h; cases h
+        | ok o' =>
+          rw [hr] at h
+          cases h
+          obtain ⟨ih1, ih2, ih3, ih4⟩ := ih rs o' hr h0
+          refine ⟨by simp [ih1], ?_, ?_, ?_⟩
+          · intro i l' r' hl hr'
+            cases i with
+            | zero => simp at hl hr'; subst hl; subst hr'; exact ⟨d, hm, by simp⟩
+            | succ i => simpa using ih2 i l' r' (by simpa using hl) (by simpa using hr')
+          · intro i hi
+            cases i with
+            | zero => simp at hi
+            | succ i => simpa using ih3 i (by simpa using hi)
+          · intro i hi
+            cases i with
+            | zero => simp at hi
+            | succ i => simpa using ih4 i (by simpa using hi)
+
+/-- MERGE_ACROSS with status 0 leaves `max |L| |R|` documents. -/
+theorem across_count (ls rs : List Node) (o : Out) (h : across m cls ls rs = .ok o)
+    (h0 : o.state = 0) : o.docs.length = max ls.length rs.length :=
+  (across_is_zip m cls ls rs o h h0).1
+
+/-- The states MERGE_ACROSS can end in. -/
+theorem across_state (ls rs : List Node) (o : Out) (h : across m cls ls rs = .ok o) :
+    o.state = 0 ∨ o.state = 31 ∨ o.state = 32 := by
+  induction ls generalizing rs o with
+  | nil => cases rs <;> (simp only [across] at h; cases h; simp)
+  | cons l ls ih =>
+    cases rs with
+    | nil => simp only [across] at h; cases h; simp
+    | cons r rs =>
+      simp only [across] at h
+      cases hm : m l r with
+      | error e =>
+        rw [hm] at h
+        simp only [code] at h
+        cases hc : cls e <;> rw [hc] at h <;> simp at h
+        all_goals (cases h; simp)
+      | ok d =>
+        rw [hm] at h
+        cases hr : across m cls ls rs with
+        | error e => rw [hr] at h; cases h
+        | ok o' => rw [hr] at h; cases h; exact ih rs o' hr
+
+/-- One row of MATRIX_MERGE is the left fold of the whole right-hand stream into the left-hand
+document when every step is defined. -/
+theorem matrixRow_fold (rs : List Node) (l d : Node) (h : foldMerge m l rs = .ok d) :
+    matrixRow m cls rs l = .ok (d, none) := by
+  induction rs generalizing l with
+  | nil => simp only [foldMerge] at h; cases h; rfl
+  | cons r rs ih =>
+    simp only [foldMerge] at h
+    unfold matrixRow
+    cases hm : m l r with
+    | ok q => rw [hm] at h; simpa using ih q h
+    | error e => rw [hm] at h; cases h
+
+/-- **matrix_is_product.**  MATRIX_MERGE keeps the number and order of the left-hand documents,
+and the `i`-th result is the row of the `i`-th left-hand document: every right-hand document, in
+order, merged into it (`matrixRow`; by `matrixRow_fold` the full left fold when all steps are
+defined) — independently of the other left-hand documents. -/
+theorem matrix_is_product (rs ls : List Node) (st : Nat) (o : Out)
+    (h : matrix m cls rs ls st = .ok o) :
+    o.docs.length = ls.length ∧
+    ∀ (i : Nat) l, ls[i]? = some l → ∃ d c, matrixRow m cls rs l = .ok (d, c) ∧ o.docs[i]? = some d := by
+  induction ls generalizing st o with
+  | nil => simp only [matrix] at h; cases h; simp
+  | cons l ls ih =>
+    simp only [matrix] at h
+    cases hrow : matrixRow m cls rs l with
+    | error e => rw [hrow] at h; cases h
+    | ok dc =>
+      obtain ⟨d, c⟩ := dc
+      rw [hrow] at h
+      simp only at h
+      cases hr : matrix m cls rs ls (c.getD st) with
+      | error e => rw [hr] at h; cases h
+      | ok o' =>
+        rw [hr] at h
+        cases h
+        obtain ⟨ih1, ih2⟩ := ih _ o' hr
+        refine ⟨by simp [ih1], ?_⟩
+        intro i l' hl
+        cases i with
+        | zero => simp at hl; subst hl; exact ⟨d, c, hrow, by simp⟩
+        | succ i => simpa using ih2 i l' (by simpa using hl)
+
+/-- When every step of every row is defined the state stays what it was (0 from `merge_docs`). -/
+theorem matrix_all_ok (rs ls : List Node) (st : Nat)
+    (hall : ∀ l ∈ ls, ∃ d, foldMerge m l rs = .ok d) :
+    ∃ ds, matrix m cls rs ls st = .ok ⟨ds, st⟩ ∧ ds.length = ls.length := by
+  induction ls with
+  | nil => exact ⟨[], rfl, rfl⟩
+  | cons l ls ih =>
+    obtain ⟨d, hd⟩ := hall l (by simp)
+    obtain ⟨ds, hds, hlen⟩ := ih (fun l' hl' => hall l' (by simp [hl']))
+    refine ⟨d :: ds, ?_, by simp [hlen]⟩
+    simp only [matrix, matrixRow_fold m cls rs l d hd, Option.getD_none, hds]
+
+theorem matrixRow_code (rs : List Node) (l d : Node) (c : Nat)
+    (h : matrixRow m cls rs l = .ok (d, some c)) : c = 41 ∨ c = 42 := by
+  induction rs generalizing l with
+  | nil => simp [matrixRow] at h
+  | cons r rs ih =>
+    unfold matrixRow at h
+    cases hm : m l r with
+    | ok q => rw [hm] at h; exact ih q h
+    | error e =>
+      rw [hm] at h
+      simp only [code] at h
+      cases hc : cls e <;> rw [hc] at h <;> simp at h
+      all_goals omega
+
+/-- The states MATRIX_MERGE can end in. -/
+theorem matrix_state (rs ls : List Node) (st : Nat) (o : Out)
+    (h : matrix m cls rs ls st = .ok o) : o.state = st ∨ o.state = 41 ∨ o.state = 42 := by
+  induction ls generalizing st o with
+  | nil => simp only [matrix] at h; cases h; simp
+  | cons l ls ih =>
+    simp only [matrix] at h
+    cases hrow : matrixRow m cls rs l with
+    | error e => rw [hrow] at h; cases h
+    | ok dc =>
+      obtain ⟨d, c⟩ := dc
+      rw [hrow] at h
+      simp only at h
+      cases hr : matrix m cls rs ls (c.getD st) with
+      | error e => rw [hr] at h; cases h
+      | ok o' =>
+        rw [hr] at h
+        cases h
+        have := ih _ o' hr
+        cases c with
+        | none => simpa using this
+        | some c =>
+          rcases matrixRow_code m cls rs l d c hrow with hc | hc <;> subst hc <;>
+            simp only [Option.getD_some] at this <;> rcases this with h' | h' | h' <;> simp [h']
+
+/-- **output_count.**  With status 0 the number of documents `merge_docs` leaves is determined by
+the mode and the two stream lengths alone: 1, `max |L| |R|`, `|L|`. -/
+theorem output_count (mode : Mode) (lhs rs : List Node) (o : Out)
+    (h : mergeDocs m cls mode lhs (some rs) = some (.ok o)) (h0 : o.state = 0) :
+    o.docs.length = (match mode with
+      | .condenseAll => 1
+      | .mergeAcross => max lhs.length rs.length
+      | .matrixMerge => lhs.length) := by
+  cases mode with
+  | condenseAll => exact condense_count m cls lhs rs o (by simpa [mergeDocs] using h)
+  | mergeAcross =>
+    have h' : across m cls lhs rs = .ok o := by simpa [mergeDocs] using h
+    exact across_count m cls lhs rs o h' h0
+  | matrixMerge =>
+    have h' : matrix m cls rs lhs 0 = .ok o := by simpa [mergeDocs] using h
+    exact (matrix_is_product m cls rs lhs 0 o h').1
+
+/-- **exit_codes.**  The state `merge_docs` returns: 3 for an unreadable right-hand file, otherwise 0
+or the code of a caught failure of the mode's own range (11–14 / 31–32 / 41–42). -/
+theorem exit_codes (mode : Mode) (lhs : List Node) (rhs : Option (List Node)) (o : Out)
+    (h : mergeDocs m cls mode lhs rhs = some (.ok o)) :
+    (rhs = none ∧ o.state = 3) ∨
+    (rhs ≠ none ∧ (o.state = 0 ∨ (match mode with
+      | .condenseAll => o.state = 11 ∨ o.state = 12 ∨ o.state = 13 ∨ o.state = 14
+      | .mergeAcross => o.state = 31 ∨ o.state = 32
+      | .matrixMerge => o.state = 41 ∨ o.state = 42))) := by
+  cases rhs with
+  | none => simp only [mergeDocs, Option.some.injEq, Except.ok.injEq] at h; subst h; exact .inl ⟨rfl, rfl⟩
+  | some rs =>
+    refine .inr ⟨by simp, ?_⟩
+    cases mode with
+    | mergeAcross =>
+      have h' : across m cls lhs rs = .ok o := by simpa [mergeDocs] using h
+      rcases across_state m cls lhs rs o h' with h1 | h1 | h1 <;> simp [h1]
+    | matrixMerge =>
+      have h' : matrix m cls rs lhs 0 = .ok o := by simpa [mergeDocs] using h
+      rcases matrix_state m cls rs lhs 0 o h' with h1 | h1 | h1 <;> simp [h1]
+    | condenseAll =>
+      cases lhs with
+      | nil => simp [mergeDocs, condenseAll] at h
+      | cons l0 ls =>
+        simp only [mergeDocs, condenseAll, Option.some.injEq] at h
+        cases h1 : condenseLoop m cls 10 ls (l0, 0) with
+        | error e => rw [h1] at h; cases h
+        | ok acc1 =>
+          obtain ⟨p1, s1⟩ := acc1
+          rw [h1] at h
+          simp only at h
+          cases h2 : condenseLoop m cls 12 rs (p1, s1) with
+          | error e => rw [h2] at h; cases h
+          | ok acc2 =>
+            obtain ⟨p2, s2⟩ := acc2
+            rw [h2] at h
+            cases h
+            have a1 := condenseLoop_state m cls 10 ls l0 0 p1 s1 h1
+            have a2 := condenseLoop_state m cls 12 rs p1 s1 p2 s2 h2
+            simp only at a1 a2 ⊢
+            omega
+
+/-! ## The hypotheses are met by concrete, non-trivial values -/
+
+/-- A toy pairwise merge: concatenation of sequences, failure on anything else. -/
+def catMerge : Node → Node → Except Unit Node
+  | .seq a xs, .seq _ ys => .ok (.seq a (xs ++ ys))
+  | _, _ => .error ()
+
+def sq (n : Nat) : Node := .seq none [.scalar none (.int n)]
+
+example : condenseAll catMerge (fun _ => .merge) [sq 1, sq 2] [sq 3, sq 4]
+    = some (.ok ⟨[.seq none [.scalar none (.int 1), .scalar none (.int 2), .scalar none (.int 3),
+        .scalar none (.int 4)]], 0⟩) := by decide +kernel
+
+example : across catMerge (fun _ => .merge) [sq 1] [sq 2, sq 3]
+    = .ok ⟨[.seq none [.scalar none (.int 1), .scalar none (.int 2)], sq 3], 0⟩ := by decide +kernel
+
+example : (matrix catMerge (fun _ => .merge) [sq 8, sq 9] [sq 1, sq 2] 0).map (·.docs.length) = .ok 2 := by
+  decide +kernel
+
+example : across catMerge (fun _ => .merge) [sq 1, .scalar none .null] [sq 2, sq 3]
+    = .ok ⟨[.seq none [.scalar none (.int 1), .scalar none (.int 2)], .scalar none .null], 31⟩ := by
+  decide +kernel
+
+end Ypv.C18
